@@ -1,11 +1,14 @@
 import ZmqVerif.Lemmas.Endpoint
+import ZmqVerif.Lemmas.IpLaws
 import ZmqVerif.Spec.EndpointGrammar
 /-!
 # C19 — endpoint parsing is total, strict, and round-trips through its text form
 
 `parseEndpoint`/`display` mirror `Endpoint::from_str`/`Display` (`Model.Endpoint`), over
-an abstract `IpModel` of `std::net`; `Laws` is exactly what is assumed of `std::net`
-(sampled against the real `std` by the correspondence check; see DESIGN.md §8).
+an abstract `IpModel` of `std::net`; `Laws` is exactly what is assumed of `std::net`.  For the
+executable models of `Model.Ip` (which the correspondence check runs against the real `std`)
+every law is PROVED (`Lemmas.IpLaws`) except the IPv6 print/parse round trip, which remains the one
+hypothesis of `C19_roundtrip_std` and is validated by sampling.
 -/
 namespace Zmq.C19
 open Zmq.Ep Zmq.Ip
@@ -15,6 +18,24 @@ yields an equal endpoint (IPv6 hosts are bracketed in the text form). -/
 theorem C19_roundtrip (m : IpModel) (L : Laws m) (s : Str) (e : Endpoint m)
     (hp : parseEndpoint m s = .ok e) : parseEndpoint m (display m e) = .ok e :=
   roundtrip m L s e hp
+
+/-- The same for the executable models of `std::net`'s address text: the IPv4 laws (round trip of
+all 2^32 addresses, character set, non-emptiness) and the shape of IPv6 text are theorems; what is
+left to assume is `Ipv6Addr`'s own print/parse round trip. -/
+theorem C19_roundtrip_std (h6 : ∀ a : Ip.Ip6, Ip.parse6 (Ip.show6 a) = some a) (s : Str)
+    (e : Endpoint stdModel) (hp : parseEndpoint stdModel s = .ok e) :
+    parseEndpoint stdModel (display stdModel e) = .ok e :=
+  roundtrip stdModel (stdLaws h6) s e hp
+
+/-- IPv4 literals: every address's text form parses back to it (no hypothesis) … -/
+theorem C19_ipv4_roundtrip (a : Ip.Ip4) : Ip.parse4 (Ip.show4 a) = some a := Ip.rt4 a
+
+/-- … and non-vacuity of the IPv6 hypothesis on the corner cases of RFC 5952 printing: all-zero,
+loopback, a run in the middle, two equal runs (first wins), a run at the end, no run, v4-mapped. -/
+example : ∀ a ∈ ([mkIp6 [0,0,0,0,0,0,0,0], mkIp6 [0,0,0,0,0,0,0,1], mkIp6 [1,0,0,0,5,6,7,8],
+                  mkIp6 [1,0,0,4,0,0,7,8], mkIp6 [1,2,3,4,5,6,0,0], mkIp6 [1,2,3,4,5,6,7,8],
+                  mkIp6 [0,0,0,0,0,0xffff,0x0102,0x0304], mkIp6 [0xfe80,0,0,0,0,0,0,1]] : List Ip.Ip6),
+    Ip.parse6 (Ip.show6 a) = some a := by decide +kernel
 
 theorem takeWhile_dropWhile_eq (s : Str) (p : Char → Bool) : s = s.takeWhile p ++ s.dropWhile p :=
   (List.takeWhile_append_dropWhile).symm
